@@ -13,6 +13,8 @@ Strings travel hex-encoded (two lower-case hex digits per byte, `-` for the empt
     → `rejected` when `net/http` refuses the request target (any form: origin, absolute, `*`, the
       authority of CONNECT), `unmodelled` for an absolute-form target whose authority is outside
       `simpleAuthority`, otherwise as `req` with the path that `parseAnyTarget` derives from the raw target.
+* `dreq …` / `dwreq …`: as `req` / `wreq`, but nobody listens on the target (`serveFaulty` with the
+  single attempt `noConn`): `404` | `robots` | `500` | `proxy-error`.
 * `fl <base> <ua> <events> (<method> <target> <remote> <nhdr> (<name> <value>)*)*`
     → what the backend receives, in order, under the schedule `<events>` (comma-separated `r<i>` =
       request `i` runs up to and including `Rewrite`, `s<i>` = the transport writes request `i`) over
@@ -66,6 +68,13 @@ def showResp : Resp → String
   | .proxyErr => "proxy-error"
   | .proxied path h => "proxy " ++ hex path ++ " " ++ showHdrs h
 
+def showAnswer : ClientAnswer → String
+  | .notFound => "404"
+  | .robots => "robots"
+  | .err500 => "500"
+  | .empty => "proxy-error"
+  | .backend st => "backend-" ++ toString st
+
 partial def parseReqs : List String → List Req
   | m :: t :: remote :: n :: rest =>
     let k := nat! n
@@ -107,6 +116,18 @@ def step (s : Unit) : List String → Unit × String
           let e : Env := { base := unhex base, reqID := reqID, ua := unhex ua }
           let r : Req := { method := unhex m, path := p, remote := unhex remote, hdrs := parseHdrs hs }
           showResp (serve e r))
+  | "dreq" :: base :: ua :: m :: p :: remote :: hs =>
+    let e : Env := { base := unhex base, reqID := reqID, ua := unhex ua }
+    let r : Req := { method := unhex m, path := unhex p, remote := unhex remote, hdrs := parseHdrs hs }
+    (s, showAnswer (serveFaulty e r true [.noConn]).1)
+  | "dwreq" :: base :: ua :: m :: target :: remote :: hs =>
+    (s, match parseAnyTarget (unhex m) (unhex target) with
+        | .refused => "rejected"
+        | .unmodelled => "unmodelled"
+        | .path p =>
+          let e : Env := { base := unhex base, reqID := reqID, ua := unhex ua }
+          let r : Req := { method := unhex m, path := p, remote := unhex remote, hdrs := parseHdrs hs }
+          showAnswer (serveFaulty e r true [.noConn]).1)
   | "fl" :: base :: ua :: evs :: rs =>
     let e : Env := { base := unhex base, reqID := reqID, ua := unhex ua }
     (s, showLog (runFlight .none e (parseReqs rs) (parseEvs evs)).log)
